@@ -9,6 +9,7 @@ import (
 
 	"verifcheck/internal/flow"
 	"verifcheck/internal/locks"
+	"verifcheck/internal/ssaq"
 )
 
 // guardedField says that a struct field may only be touched with a mutex of
@@ -155,6 +156,14 @@ func ruleGuardedBy(ctx *Ctx, rule string, want func(g guardedField) bool) {
 			if why, ok := guardedExempt[fmt.Sprintf("%s | %s", u.Name, name)]; ok {
 				r.Exempt(rule, key, pos, why)
 				continue
+			}
+			// code moved out of an exempted function into a helper that did not
+			// exist on the reference tree keeps the exemption
+			if hf := ssaq.For(ctx.Prog).Func(u.Name); hf != nil {
+				if why, ok := exemptViaOwners(ssaq.For(ctx.Prog), hf, guardedExempt, name); ok {
+					r.Exempt(rule, key, pos, why+" (moved into a new helper reached only from there)")
+					continue
+				}
 			}
 			node := enclosingCFGNode(u, ac.sel)
 			if node == nil {
